@@ -145,6 +145,9 @@ func (t *ActiveTable) Delete(ctx context.Context, req *regattapb.DeleteRangeRequ
 	if len(req.Key) > key.LatestVersionLen {
 		return nil, serrors.ErrKeyLengthExceeded
 	}
+	if len(req.RangeEnd) > key.LatestVersionLen {
+		return nil, serrors.ErrKeyLengthExceeded
+	}
 	cmd := &regattapb.Command{
 		Type:  regattapb.Command_DELETE,
 		Table: req.Table,
@@ -184,7 +187,7 @@ func validateRequestOps(ops []*regattapb.RequestOp) error {
 			if len(o.RequestDeleteRange.GetKey()) == 0 {
 				return serrors.ErrEmptyKey
 			}
-			if len(o.RequestDeleteRange.GetKey()) > key.LatestVersionLen {
+			if len(o.RequestDeleteRange.GetKey()) > key.LatestVersionLen || len(o.RequestDeleteRange.GetRangeEnd()) > key.LatestVersionLen {
 				return serrors.ErrKeyLengthExceeded
 			}
 		}
@@ -235,6 +238,13 @@ func (t *ActiveTable) Txn(ctx context.Context, req *regattapb.TxnRequest) (*rega
 
 // Iterator returns open pebble.Iterator it is an API consumer responsibility to close it.
 func (t *ActiveTable) Iterator(ctx context.Context, req *regattapb.RangeRequest) (iter.Seq[*regattapb.ResponseOp_Range], error) {
+	if len(req.Key) > key.LatestVersionLen {
+		return nil, serrors.ErrKeyLengthExceeded
+	}
+	if len(req.RangeEnd) > key.LatestVersionLen {
+		return nil, serrors.ErrKeyLengthExceeded
+	}
+
 	return readTable[iter.Seq[*regattapb.ResponseOp_Range]](t, ctx, req.Linearizable, fsm.IteratorRequest{RangeOp: &regattapb.RequestOp_Range{
 		Key:       req.Key,
 		RangeEnd:  req.RangeEnd,
